@@ -53,6 +53,14 @@ func domain() []tbl.PathSpec {
 			}
 		}
 	}
+	// IPv6 peers: same attributes throughout (a LOCAL_PREF no IPv4 spec has), so the peer address decides among them;
+	// the addresses differ in the high or the low 64 bit word, by less and by more than 2^63
+	for _, s6 := range [][2]uint64{{0x20010db800000000, 1}, {0x20010db800000000, 2}, {0x20010db800000000, 0x8000000000000001},
+		{0x20010db800000000, 0xfffffffffffffffe}, {0xfe80000000000000, 1}, {0xfc00000000000000, 1}, {0x0000000000000000, 1}} {
+		s6 := s6
+		out = append(out, tbl.PathSpec{ID: id, LP: 300, ASPath: aspaths[0], Origin: 0, MED: 0, BGPID: 1, Source6: &s6, NextHop: 0x0b000001})
+		id++
+	}
 	return out
 }
 
@@ -109,7 +117,7 @@ func pick(w int) string {
 
 func main() {
 	vf.Main("C03", "exploration", func(r *vf.Run) {
-		r.Rule("exhaustive ordered pairs of a BGP path domain (LOCAL_PREF{100,200} x AS_PATH{1 ASN, 2 ASNs, 1 ASN + a set} x ORIGIN{0,2} x MED{0,10} x eBGP/iBGP x identifier{1,2} x ORIGINATOR_ID{0,1,3} x CLUSTER_LIST{absent,empty,1,2} x peer address{2}); reference = the statement's steps in order; pairs on which every stated step ties are not judged. distinct_nontrivial = ordered pairs decided by a stated step (counted per pair)")
+		r.Rule("exhaustive ordered pairs of a BGP path domain (LOCAL_PREF{100,200} x AS_PATH{1 ASN, 2 ASNs, 1 ASN + a set} x ORIGIN{0,2} x MED{0,10} x eBGP/iBGP x identifier{1,2} x ORIGINATOR_ID{0,1,3} x CLUSTER_LIST{absent,empty,1,2} x peer address{2}) plus 7 paths that differ only in their IPv6 peer address (differences below and above 2^63 in either 64 bit word); reference = the statement's steps in order; pairs on which every stated step ties are not judged. distinct_nontrivial = ordered pairs decided by a stated step (counted per pair)")
 		r.Assume("ORIGINATOR_ID and CLUSTER_LIST only on iBGP paths", "AS_PATH length counts an AS_SET as 1 (RFC 4271 9.1.2.2 a)")
 		if raw, ok := r.Replaying(); ok {
 			var k kase
